@@ -15,8 +15,9 @@
      recent reload, restricted by the handle's filters) is checked by engine fs on every
      generated history: views of the implementation = views of model/Fileset.v, with a
      driver-controlled monotonic clock; the ASan build runs the same histories. *)
-From Coq Require Import NArith List Lia.
-From Mtbl Require Import gen.Consts model.Bytes model.Fileset proofs.FilesetProofs.
+From Coq Require Import NArith Arith List Lia Bool.
+From Mtbl Require Import gen.Consts model.Bytes model.Fileset proofs.FilesetProofs proofs.FilesetView.
+Import ListNotations.
 Local Open Scope N_scope.
 
 Theorem T07a_no_use_after_unload : forall w interval nf rf ops,
@@ -73,3 +74,430 @@ Example T07_example :
   let outs := frun (fs_init w0 0 None None) ops in
   Forall (fun o => o <> OutUAF) outs /\ nth 12 outs OutNone = OutView [2] /\ nth 4 outs OutNone = OutView [1; 2].
 Proof. vm_compute. split; [repeat constructor; discriminate|split; reflexivity]. Qed.
+
+
+(* ======================================================================================= *)
+(* C07, the view and pinning clauses, on model/Fileset.v, for every history from fs_init.
+   Hypotheses on histories (all executable, see wf_op / wf_hist in proofs/FilesetView.v):
+     H-lines  the lines of the initial setfile and of every OpSetFile are distinct names
+              (lines_ok; used by every theorem);
+     H-live   the handle of the OpOpen whose view is described exists and is not destroyed
+              (live_handle; used by T07b_view* only, and only for that one operation).
+   The other clauses of wf_op (operations name live handles, OpClose names an open iterator,
+   OpDestroy only without open iterators) are NOT needed by any theorem below.
+   PROVED (each closed under the global context)
+   T07b_view_filtered_loaded_set  a new iterator of a live handle is over exactly the loaded entries
+       that have a reader and pass the handle's filename and reader filters, in name order, and is
+       recorded with these sources as its snapshot                                   (tiers 1, 4)
+   T07b_my_fileset_reload         one call of my_fileset_reload: unchanged stamp - nothing changes;
+       changed stamp - the new loaded set, the fresh readers, the unloaded readers      (tier 2)
+   T07b_loaded_set                in every reachable state the loaded entries are the lines of the
+       setfile whose path exists, as of the most recent step that re-read the setfile, sorted by
+       name; kept names keep reader and table, new names get fresh readers              (tier 2)
+   T07b_most_recent_reload, T07b_reread_iff   what the ghost of T07b_loaded_set refers to
+   T07b_view, T07b_view_at, T07b_view_wf      tiers 1 + 2: the output of every OpOpen
+   T07b_handle_filters, T07b_created_filters, T07b_dup_filters   handles keep their filters
+   T07d_iter_count                n_iters = number of open iterators
+   T07d_open_iterators_loaded     (a) readers of open iterators are loaded and not unloaded
+   T07d_snapshot_fixed            (b) handle and snapshot of an iterator never change
+   T07d_no_reload_while_open, T07d_no_reload_step   (c) nothing loaded / unloaded while open
+   T07d_open_iterator_is_current_view   an open iterator is still the current filtered view
+   T07e_reload_now_deferred, T07e_request_pending, T07e_request_performed,
+   T07e_close_last_iterator, T07e_deferred_reload   a reload requested while an iterator is open
+       runs at the first reload call made with the iterator count at 0
+   Examples: a computed history; three caveats on "files named in the setfile as of the most
+       recent reload" (end of file).
+   Model hypotheses inherited from model/Fileset.v: every clock reading is strictly later than the
+   previous one (tick); every rewrite of the setfile changes its (ino, mtime) (OpSetFile). *)
+Lemma live_handle_spec st hi : live_handle st hi = true ->
+  (hi < length (fs_handles st))%nat /\ h_alive (nth hi (fs_handles st) dummy_handle) = true.
+Proof.
+  unfold live_handle. intros H. apply Bool.andb_true_iff in H. destruct H as [H1 H2]. apply Nat.ltb_lt in H1. split; assumption.
+Qed.
+
+Lemma frun_single st op : frun st [op] = [snd (fstep st op)].
+Proof. cbn [frun]. destruct (fstep st op). reflexivity. Qed.
+
+(* ---- tiers 1 and 4 ------------------------------------------------------------------------------------------ *)
+Theorem T07b_view_filtered_loaded_set : forall w interval nf rf ops hi,
+  NoDup (w_set_lines w) -> lines_ok ops ->
+  let st0 := fs_init w interval nf rf in
+  let st := fexec st0 ops in
+  live_handle st hi = true ->
+  let h := nth hi (fs_handles st) dummy_handle in
+  let st' := fexec st0 (ops ++ [OpOpen hi]) in
+  let h' := nth hi (fs_handles st') dummy_handle in
+  (* the output of the open *)
+  last (frun st0 (ops ++ [OpOpen hi])) OutNone = OutView (map snd (reinit_merger (fs_shared st') h')) /\
+  (* ... is the tables of the loaded entries that have a reader and pass the handle's filters *)
+  map snd (reinit_merger (fs_shared st') h') = map fe_table (filter (passes h) (sh_entries (fs_shared st'))) /\
+  (* the iterator is recorded with these sources as its snapshot *)
+  fs_iters st' = fs_iters st ++ [(hi, map source_of (filter (passes h) (sh_entries (fs_shared st'))), true)].
+Proof.
+  intros w interval nf rf ops hi Hw Hl st0 st Hlive h st' h'.
+  destruct (live_handle_spec st hi Hlive) as [Hhi Hal].
+  assert (Hv : vinv st) by (apply vinv_exec; [apply vinv_init, Hw|exact Hl]).
+  assert (Est : st' = fst (fstep st (OpOpen hi))) by (unfold st', st; rewrite fexec_app; reflexivity).
+  rewrite frun_app, frun_single, last_last. fold st.
+  subst h'. clearbody st'. subst st'.
+  destruct (open_view st hi Hv Hhi Hal) as (O1 & O2 & O3 & O4 & O5).
+  set (h' := nth hi (fs_handles (fst (fstep st (OpOpen hi)))) dummy_handle) in *.
+  assert (Hopts : same_opts h h') by (pose proof (handle_opts_step st (OpOpen hi) hi Hhi) as [_ H]; exact H).
+  assert (Ef : reinit_merger (fs_shared (fst (fstep st (OpOpen hi)))) h' = map source_of (filter (passes h) (sh_entries (fs_shared (fst (fstep st (OpOpen hi))))))).
+  { rewrite reinit_merger_filter, (passes_opts h h' Hopts). reflexivity. }
+  splits.
+  - exact O1.
+  - rewrite Ef, map_map. reflexivity.
+  - rewrite <- Ef. exact O2.
+Qed.
+Print Assumptions T07b_view_filtered_loaded_set.
+
+(* ---- tier 2 -------------------------------------------------------------------------------------------------- *)
+(* last_reread st0 ops None is the ghost: None when no step of the history re-read the setfile,
+   else the world (setfile lines, existing paths), the loaded set and the reader counter just
+   before the most recent step that re-read it (last_reread_split).  A step re-reads the setfile iff
+   do_reload ran with a setfile whose (ino, mtime) differs from the recorded one (reread_spec). *)
+Theorem T07b_loaded_set : forall w interval nf rf ops,
+  NoDup (w_set_lines w) -> lines_ok ops ->
+  let st0 := fs_init w interval nf rf in
+  let ents := sh_entries (fs_shared (fexec st0 ops)) in
+  ents = expected_entries (last_reread st0 ops None) /\
+  match last_reread st0 ops None with
+  | None => ents = []
+  | Some g =>
+    (* sorted ascending by name *)
+    sorted ents /\
+    (* the names are the lines of the setfile, as of that reload, whose path existed then *)
+    (forall n, In n (names_of ents) <-> In n (w_set_lines (g_world g)) /\ lookup_file (g_world g) n <> None) /\
+    (* a name that was loaded keeps reader and table; a new one gets a fresh reader and the table in the file *)
+    (forall e, In e ents -> entry_ok (g_world g) (g_old g) (g_next g)
+                                     (g_next g + count (is_new_table (g_world g) (g_old g)) (w_set_lines (g_world g))) e)
+  end.
+Proof.
+  intros w interval nf rf ops Hw Hl st0 ents.
+  destruct (loaded_set_gen ops st0 None (vinv_init w interval nf rf Hw) Hl I eq_refl) as [E Hg].
+  fold ents in E. split; [exact E|]. destruct (last_reread st0 ops None) as [g|]; [|exact E].
+  cbn [expected_entries ghost_ok] in *. rewrite E. apply setfile_view_spec, Hg.
+Qed.
+Print Assumptions T07b_loaded_set.
+
+(* which step the ghost refers to *)
+Theorem T07b_most_recent_reload : forall w interval nf rf ops g,
+  let st0 := fs_init w interval nf rf in
+  last_reread st0 ops None = Some g ->
+  exists pre op post, ops = pre ++ op :: post /\
+    reread (fexec st0 pre) op = true /\                       (* this step re-read the setfile *)
+    no_reread (fexec st0 (pre ++ [op])) post /\               (* no later step did *)
+    g = mkghost (fs_world (fexec st0 pre)) (sh_entries (fs_shared (fexec st0 pre))) (sh_next_reader (fs_shared (fexec st0 pre))).
+Proof.
+  intros w interval nf rf ops g st0 E. destruct (last_reread_split ops st0 None g E) as [[_ H]|(pre & op & post & H1 & H2 & H3 & H4)]; [discriminate|].
+  exists pre, op, post. splits; assumption.
+Qed.
+Print Assumptions T07b_most_recent_reload.
+
+(* a step re-reads the setfile exactly when a reload runs (no iterator open) and finds a changed stamp *)
+Theorem T07b_reread_iff : forall st op, reachable st -> (forall lines, op = OpSetFile lines -> NoDup lines) ->
+  (reread st op = true <->
+   reloaded st (fst (fstep st op)) /\ stamp_same (tick (fs_world st)) (fs_shared st) = false).
+Proof. intros st op Hr Hop. exact (proj1 (reread_spec st op (reachable_vinv st Hr) Hop)). Qed.
+Print Assumptions T07b_reread_iff.
+
+(* one call of my_fileset_reload *)
+Theorem T07b_my_fileset_reload : forall w s, sinv s -> NoDup (w_set_lines w) ->
+  let '(s1, loaded, unloaded) := my_fileset_reload w s in
+  if stamp_same w s
+  then (* the setfile has the recorded (ino, mtime): nothing changes *)
+       s1 = s /\ loaded = 0 /\ unloaded = 0
+  else
+    let ents := sh_entries s1 in
+    sorted ents /\
+    (forall n, In n (names_of ents) <-> In n (w_set_lines w) /\ lookup_file w n <> None) /\
+    (forall e, In e ents -> entry_ok w (sh_entries s) (sh_next_reader s) (sh_next_reader s1) e) /\
+    (* readers handed out before are below the counter, so the new ones are fresh *)
+    (forall r, In r (live s) \/ In r (sh_dead s) -> r < sh_next_reader s) /\
+    (* unloaded: the readers of the loaded names that are no longer a line of the setfile with an existing path *)
+    (forall r, In r (sh_dead s1) <->
+       In r (sh_dead s) \/
+       exists e, In e (sh_entries s) /\ fe_reader e = Some r /\ ~ (In (fe_name e) (w_set_lines w) /\ lookup_file w (fe_name e) <> None)) /\
+    sh_last_ino s1 = w_set_ino w /\ sh_last_mtime s1 = w_set_mtime w /\
+    loaded = count (is_new w (sh_entries s)) (w_set_lines w) /\
+    unloaded = N.of_nat (length (dropped_of w (sh_entries s))).
+Proof.
+  intros w s Hs Hnd. rewrite my_fileset_reload_spec. destruct (stamp_same w s); [splits; reflexivity|].
+  cbv zeta. cbn [sh_entries sh_next_reader sh_dead sh_last_ino sh_last_mtime].
+  destruct (setfile_view_spec w (sh_entries s) (sh_next_reader s) Hnd) as (S1 & S2 & S3).
+  splits; try assumption; try reflexivity.
+  - intros r [Hr|Hr]; [exact (si_live_lt s Hs r Hr)|exact (si_dead_lt s Hs r Hr)].
+  - intros r. apply in_dead_after. exact (si_names s Hs).
+Qed.
+Print Assumptions T07b_my_fileset_reload.
+
+(* ---- tiers 1 + 2 ---------------------------------------------------------------------------------------------- *)
+Theorem T07b_view : forall w interval nf rf ops hi,
+  NoDup (w_set_lines w) -> lines_ok ops ->
+  let st0 := fs_init w interval nf rf in
+  live_handle (fexec st0 ops) hi = true ->
+  let h := nth hi (fs_handles (fexec st0 ops)) dummy_handle in
+  last (frun st0 (ops ++ [OpOpen hi])) OutNone =
+  OutView (map fe_table (filter (passes h) (expected_entries (last_reread st0 (ops ++ [OpOpen hi]) None)))).
+Proof.
+  intros w interval nf rf ops hi Hw Hl st0 Hlive h.
+  destruct (T07b_view_filtered_loaded_set w interval nf rf ops hi Hw Hl Hlive) as (V1 & V2 & _).
+  assert (Hl' : lines_ok (ops ++ [OpOpen hi])).
+  { intros lines Hin. apply in_app_or in Hin. destruct Hin as [Hin|[Hin|[]]]; [apply Hl, Hin|discriminate]. }
+  destruct (T07b_loaded_set w interval nf rf (ops ++ [OpOpen hi]) Hw Hl') as [E _].
+  fold st0 in V1, V2, E. fold h in V2. rewrite V1, V2, E. reflexivity.
+Qed.
+Print Assumptions T07b_view.
+
+(* every OpOpen of a history, by its position *)
+Lemma frun_length : forall ops st, length (frun st ops) = length ops.
+Proof.
+  induction ops as [|op ops IH]; intros st; [reflexivity|]. cbn [frun]. destruct (fstep st op) as [st' o]. cbn [length]. f_equal. apply IH.
+Qed.
+
+Corollary T07b_view_at : forall w interval nf rf pre hi post,
+  NoDup (w_set_lines w) -> lines_ok (pre ++ OpOpen hi :: post) ->
+  let st0 := fs_init w interval nf rf in
+  live_handle (fexec st0 pre) hi = true ->
+  let h := nth hi (fs_handles (fexec st0 pre)) dummy_handle in
+  nth (length pre) (frun st0 (pre ++ OpOpen hi :: post)) OutNone =
+  OutView (map fe_table (filter (passes h) (expected_entries (last_reread st0 (pre ++ [OpOpen hi]) None)))).
+Proof.
+  intros w interval nf rf pre hi post Hw Hl st0 Hlive h.
+  assert (Hl1 : lines_ok pre) by (intros lines Hin; apply Hl, in_or_app; left; exact Hin).
+  pose proof (T07b_view w interval nf rf pre hi Hw Hl1 Hlive) as Hv. fold st0 h in Hv. rewrite <- Hv.
+  change (pre ++ OpOpen hi :: post) with (pre ++ [OpOpen hi] ++ post). rewrite app_assoc, (frun_app (pre ++ [OpOpen hi])).
+  rewrite app_nth1 by (rewrite frun_length, app_length; cbn [length]; lia).
+  rewrite frun_app, frun_single. rewrite app_nth2 by (rewrite frun_length; lia). rewrite frun_length, Nat.sub_diag. cbn [nth].
+  rewrite last_last. reflexivity.
+Qed.
+Print Assumptions T07b_view_at.
+
+(* the same under the executable well-formedness check *)
+Corollary T07b_view_wf : forall w interval nf rf ops hi,
+  nodupb (w_set_lines w) = true ->
+  let st0 := fs_init w interval nf rf in
+  wf_hist st0 (ops ++ [OpOpen hi]) = true ->
+  let h := nth hi (fs_handles (fexec st0 ops)) dummy_handle in
+  last (frun st0 (ops ++ [OpOpen hi])) OutNone =
+  OutView (map fe_table (filter (passes h) (expected_entries (last_reread st0 (ops ++ [OpOpen hi]) None)))).
+Proof.
+  intros w interval nf rf ops hi Hw st0 Hwf h. rewrite wf_hist_app in Hwf. apply Bool.andb_true_iff in Hwf. destruct Hwf as [H1 H2].
+  cbn [wf_hist wf_op] in H2. rewrite Bool.andb_true_r in H2.
+  apply T07b_view; [apply nodupb_NoDup, Hw|exact (wf_hist_lines_ok _ _ H1)|exact H2].
+Qed.
+Print Assumptions T07b_view_wf.
+
+(* a handle keeps the filters it was created with *)
+Theorem T07b_handle_filters : forall st ops hi, (hi < length (fs_handles st))%nat ->
+  (hi < length (fs_handles (fexec st ops)))%nat /\
+  same_opts (nth hi (fs_handles st) dummy_handle) (nth hi (fs_handles (fexec st ops)) dummy_handle).
+Proof. intros. apply handle_opts_exec. assumption. Qed.
+Print Assumptions T07b_handle_filters.
+
+(* ... which are those given to fs_init (handle 0) or to dup (handle number = the number of handles before) *)
+Theorem T07b_created_filters : forall w interval nf rf ops,
+  let h := nth 0 (fs_handles (fexec (fs_init w interval nf rf) ops)) dummy_handle in
+  h_name_filter h = nf /\ h_reader_filter h = rf /\ h_interval h = interval.
+Proof.
+  intros w interval nf rf ops. cbv zeta.
+  destruct (handle_opts_exec ops (fs_init w interval nf rf) 0%nat ltac:(cbn; lia)) as [_ (E1 & E2 & E3)].
+  rewrite E1, E2, E3. splits; reflexivity.
+Qed.
+Print Assumptions T07b_created_filters.
+
+Theorem T07b_dup_filters : forall st hi interval nf rf ops,
+  let k := length (fs_handles st) in
+  let h := nth k (fs_handles (fexec st (OpDup hi interval nf rf :: ops))) dummy_handle in
+  h_name_filter h = nf /\ h_reader_filter h = rf /\ h_interval h = interval.
+Proof.
+  intros st hi interval nf rf ops. cbv zeta. cbn [fexec fold_left].
+  destruct (dup_handle st hi interval nf rf) as (D1 & D2 & D3 & D4 & _).
+  destruct (handle_opts_exec ops (fst (fstep st (OpDup hi interval nf rf))) (length (fs_handles st)) ltac:(rewrite D1; lia)) as [_ (E1 & E2 & E3)].
+  unfold fexec in *. rewrite E1, E2, E3. splits; assumption.
+Qed.
+Print Assumptions T07b_dup_filters.
+
+(* ---- tier 3: pinning --------------------------------------------------------------------------------------- *)
+(* the iterator count is the number of open iterators *)
+Theorem T07d_iter_count : forall st, reachable st -> sh_n_iters (fs_shared st) = N.of_nat (nopen (fs_iters st)).
+Proof. intros st Hr. destruct (reachable_vinv st Hr) as (_ & _ & _ & _ & H & _). exact H. Qed.
+Print Assumptions T07d_iter_count.
+
+(* (a) the readers an open iterator was created over are loaded, and none of them has been unloaded *)
+Theorem T07d_open_iterators_loaded : forall st ii hi snap, reachable st ->
+  nth_error (fs_iters st) ii = Some (hi, snap, true) ->
+  forall p, In p snap -> In (fst p) (live (fs_shared st)) /\ ~ In (fst p) (sh_dead (fs_shared st)).
+Proof.
+  intros st ii hi snap Hr E p Hp. destruct (reachable_vinv st Hr) as ((Hs & _) & _ & _ & _ & _ & Hpin).
+  pose proof (Hpin hi snap (nth_error_In _ _ E) p Hp) as Hlive. split; [exact Hlive|exact (si_disj _ Hs _ Hlive)].
+Qed.
+Print Assumptions T07d_open_iterators_loaded.
+
+(* (b) the handle and the snapshot of an iterator never change; a closed iterator stays closed *)
+Theorem T07d_snapshot_fixed : forall st ops ii hi snap b, nth_error (fs_iters st) ii = Some (hi, snap, b) ->
+  exists b', nth_error (fs_iters (fexec st ops)) ii = Some (hi, snap, b') /\ (b' = true -> b = true).
+Proof. intros. apply iter_exec. assumption. Qed.
+Print Assumptions T07d_snapshot_fixed.
+
+(* (c) from a state in which an iterator is open to any later state in which it is still open,
+       nothing is loaded or unloaded and the reload stamps do not move *)
+Theorem T07d_no_reload_while_open : forall st ops ii hi snap, reachable st -> lines_ok ops ->
+  nth_error (fs_iters st) ii = Some (hi, snap, true) ->
+  nth_error (fs_iters (fexec st ops)) ii = Some (hi, snap, true) ->
+  let s := fs_shared st in let s' := fs_shared (fexec st ops) in
+  sh_entries s' = sh_entries s /\ sh_dead s' = sh_dead s /\ sh_next_reader s' = sh_next_reader s /\
+  sh_last_ino s' = sh_last_ino s /\ sh_last_mtime s' = sh_last_mtime s /\
+  sh_last_sec s' = sh_last_sec s /\ sh_last_nsec s' = sh_last_nsec s.
+Proof.
+  intros st ops ii hi snap Hr Hl E E'. destruct (pinned_exec ops st ii hi snap (reachable_vinv st Hr) Hl E E') as (A1 & A2 & A3 & A4 & A5 & A6 & A7).
+  cbv zeta. splits; assumption.
+Qed.
+Print Assumptions T07d_no_reload_while_open.
+
+(* so an iterator created by a live handle, while it is open, is still over exactly the loaded
+   entries that pass the handle's filters *)
+Theorem T07d_open_iterator_is_current_view : forall w interval nf rf ops hi ops2,
+  NoDup (w_set_lines w) -> lines_ok ops -> lines_ok ops2 ->
+  let st0 := fs_init w interval nf rf in
+  let st := fexec st0 ops in
+  live_handle st hi = true ->
+  let h := nth hi (fs_handles st) dummy_handle in
+  let ii := length (fs_iters st) in
+  let st2 := fexec st0 ((ops ++ [OpOpen hi]) ++ ops2) in
+  forall snap, nth_error (fs_iters st2) ii = Some (hi, snap, true) ->
+  snap = map source_of (filter (passes h) (sh_entries (fs_shared st2))).
+Proof.
+  intros w interval nf rf ops hi ops2 Hw Hl Hl2 st0 st Hlive h ii st2 snap E2.
+  destruct (T07b_view_filtered_loaded_set w interval nf rf ops hi Hw Hl Hlive) as (_ & _ & V3).
+  fold st0 st h in V3. set (st1 := fexec st0 (ops ++ [OpOpen hi])) in *.
+  assert (E1 : nth_error (fs_iters st1) ii = Some (hi, map source_of (filter (passes h) (sh_entries (fs_shared st1))), true)).
+  { rewrite V3. unfold ii. rewrite nth_error_app2, Nat.sub_diag by lia. reflexivity. }
+  assert (Est2 : st2 = fexec st1 ops2) by (unfold st2, st1; apply fexec_app).
+  destruct (iter_exec ops2 st1 ii _ _ _ E1) as (b' & E2' & _). rewrite <- Est2, E2 in E2'. inversion E2' as [[Hs Hb]]. subst b'.
+  assert (Hl1 : lines_ok (ops ++ [OpOpen hi])).
+  { intros lines Hin. apply in_app_or in Hin. destruct Hin as [Hin|[Hin|[]]]; [apply Hl, Hin|discriminate]. }
+  assert (Hv1 : vinv st1) by (apply vinv_exec; [apply vinv_init, Hw|exact Hl1]).
+  rewrite Hs in E2. rewrite Est2 in E2.
+  destruct (pinned_exec ops2 st1 ii _ _ Hv1 Hl2 E1 E2) as (_ & _ & _ & _ & A5 & _). rewrite Est2, A5. reflexivity.
+Qed.
+Print Assumptions T07d_open_iterator_is_current_view.
+
+(* (c') a reload_now while an iterator is open only records the request ... *)
+Theorem T07e_reload_now_deferred : forall st hi, 0 < sh_n_iters (fs_shared st) ->
+  let st' := fst (fstep st (OpReloadNow hi)) in
+  unchanged st st' /\ sh_reload_needed (fs_shared st') = true /\ fs_world st' = fs_world st /\ fs_iters st' = fs_iters st.
+Proof. intros. apply reload_now_deferred. assumption. Qed.
+Print Assumptions T07e_reload_now_deferred.
+
+(* ... the request stays recorded, and nothing is loaded or unloaded, over every step that does not
+   run the reload; such a step makes no reload call with the iterator count at 0 ... *)
+Theorem T07e_request_pending : forall st op, reachable st -> (forall lines, op = OpSetFile lines -> NoDup lines) ->
+  sh_reload_needed (fs_shared st) = true ->
+  let st' := fst (fstep st op) in
+  (unchanged st st' /\ sh_reload_needed (fs_shared st') = true /\
+   forall c, reload_call st op = Some c -> 0 < sh_n_iters (snd (fst c))) \/
+  reloaded st st'.
+Proof. intros st op Hr Hop Hn. exact (pending_step st op (reachable_vinv st Hr) Hop Hn). Qed.
+Print Assumptions T07e_request_pending.
+
+(* ... and the reload runs at the first reload call (OpReload, OpReloadNow, OpOpen, or the OpClose of
+   an open iterator, after its decrement) made with the iterator count at 0 *)
+Theorem T07e_request_performed : forall st op c, reachable st ->
+  reload_call st op = Some c -> sh_n_iters (snd (fst c)) = 0 ->
+  sh_reload_needed (fs_shared st) = true ->
+  reloaded st (fst (fstep st op)).
+Proof. intros st op c Hr. apply pending_performed, reachable_vinv, Hr. Qed.
+Print Assumptions T07e_request_performed.
+
+(* in particular: closing the last open iterator with a request pending runs the reload at that step *)
+Corollary T07e_close_last_iterator : forall st ii hi snap, reachable st ->
+  nth_error (fs_iters st) ii = Some (hi, snap, true) -> nopen (fs_iters st) = 1%nat ->
+  sh_reload_needed (fs_shared st) = true ->
+  let st' := fst (fstep st (OpClose ii)) in
+  reloaded st st' /\ sh_reload_needed (fs_shared st') = false /\ nopen (fs_iters st') = 0%nat.
+Proof.
+  intros st ii hi snap Hr E Hone Hn. cbv zeta. pose proof (T07d_iter_count st Hr) as Hc.
+  assert (Hrel : reloaded st (fst (fstep st (OpClose ii)))).
+  { eapply T07e_request_performed; [exact Hr| | |exact Hn].
+    - cbn [reload_call]. rewrite E. reflexivity.
+    - cbn [fst snd]. unfold set_iters. cbn [sh_n_iters]. lia. }
+  split; [exact Hrel|]. split; [exact (proj1 (proj2 (proj2 (proj2 (proj2 (proj2 (proj2 (proj2 (proj2 Hrel)))))))))|].
+  pose proof (nopen_close (fs_iters st) ii hi snap E) as Hcl.
+  destruct st as [w s hs its]. cbn [fstep fs_world fs_shared fs_handles fs_iters] in *. rewrite E.
+  destruct (fileset_reload w (set_iters s (sh_n_iters s - 1)) (nth hi hs dummy_handle)) as [[w' s'] h']. cbn [fst fs_iters]. lia.
+Qed.
+Print Assumptions T07e_close_last_iterator.
+
+(* (c) per step: with an iterator open before the step and an iterator open after it, the step loads
+       and unloads nothing (the only steps that can: the open of the first iterator, the close of the last) *)
+Theorem T07d_no_reload_step : forall st op, reachable st -> (forall lines, op = OpSetFile lines -> NoDup lines) ->
+  (0 < nopen (fs_iters st))%nat -> (0 < nopen (fs_iters (fst (fstep st op))))%nat ->
+  unchanged st (fst (fstep st op)).
+Proof. intros st op Hr. apply open_step_unchanged, reachable_vinv, Hr. Qed.
+Print Assumptions T07d_no_reload_step.
+
+(* the deferred reload over a history: after a reload_now made while an iterator is open, for every
+   continuation, either no reload call has yet been made with the iterator count at 0 - then nothing
+   has been loaded or unloaded and the request is still recorded - or the reload ran at the first
+   such call *)
+Theorem T07e_deferred_reload : forall st hi ops, reachable st -> lines_ok ops ->
+  0 < sh_n_iters (fs_shared st) ->
+  let st1 := fst (fstep st (OpReloadNow hi)) in
+  (shared_same (fs_shared st) (fs_shared (fexec st1 ops)) /\ sh_reload_needed (fs_shared (fexec st1 ops)) = true /\ calls_blocked st1 ops) \/
+  (exists pre op post c, ops = pre ++ op :: post /\
+     shared_same (fs_shared st) (fs_shared (fexec st1 pre)) /\ calls_blocked st1 pre /\
+     reload_call (fexec st1 pre) op = Some c /\ sh_n_iters (snd (fst c)) = 0 /\
+     reloaded (fexec st1 pre) (fexec st1 (pre ++ [op]))).
+Proof.
+  intros st hi ops Hr Hl Hpos. cbv zeta. destruct (reload_now_deferred st hi Hpos) as ([Hsame _] & Hn & _).
+  assert (Hv1 : vinv (fst (fstep st (OpReloadNow hi)))) by (apply vinv_step; [apply reachable_vinv, Hr|intros; discriminate]).
+  destruct (pending_exec ops _ Hv1 Hl Hn) as [(I1 & I2 & I3)|(pre & op & post & c & E & I1 & I2 & I3 & I4 & I5 & I6)].
+  - left. splits; try assumption. eapply shared_same_trans; eassumption.
+  - right. exists pre, op, post, c. splits; try assumption. eapply shared_same_trans; eassumption.
+Qed.
+Print Assumptions T07e_deferred_reload.
+
+(* ---- a history, computed ------------------------------------------------------------------------------------ *)
+(* handle 1 keeps tables with an even id.  The setfile is rewritten while an iterator of handle 0 is
+   open: reload_now is deferred, the iterator keeps its snapshot, and the close runs the reload *)
+Example T07b_example :
+  let w0 := mkworld 1 1 [3; 1; 2; 9] [(1, FTable 11); (2, FTable 12); (3, FNotTable)] 1000 0 in
+  let st0 := fs_init w0 0 None None in
+  let ops := [OpDup 0 0 None (Some 0); OpOpen 0; OpCreate 4 (FTable 14); OpSetFile [4; 2]; OpAdvance 5 0; OpReloadNow 1;
+              OpOpen 1; OpClose 1; OpClose 0; OpOpen 1; OpOpen 0] in
+  frun st0 ops = [OutNone; OutView [11; 12]; OutNone; OutNone; OutNone; OutNone;
+                  OutView [12]; OutNone; OutNone; OutView [12; 14]; OutView [12; 14]] /\
+  wf_hist st0 ops = true /\
+  names_of (expected_entries (last_reread st0 (firstn 8 ops) None)) = [1; 2; 3] /\
+  names_of (expected_entries (last_reread st0 ops None)) = [2; 4] /\
+  sh_dead (fs_shared (fexec st0 ops)) = [1].
+Proof. vm_compute. repeat split. Qed.
+
+(* CAVEATS of "the files named in the setfile as of the most recent reload" (true of the model and
+   of my_fileset.c:186-197): a name that stays in the setfile is not opened again.
+   (1) the path was replaced by another table between two reloads: the view keeps the old table *)
+Example T07b_caveat_replaced_file :
+  let w0 := mkworld 1 1 [1] [(1, FTable 11)] 1000 0 in
+  let ops := [OpOpen 0; OpClose 0; OpDelete 1; OpCreate 1 (FTable 99); OpSetFile [1]; OpAdvance 5 0; OpReloadNow 0; OpOpen 0] in
+  frun (fs_init w0 0 None None) ops = [OutView [11]; OutNone; OutNone; OutNone; OutNone; OutNone; OutNone; OutView [11]] /\
+  reread (fexec (fs_init w0 0 None None) (firstn 6 ops)) (OpReloadNow 0) = true.
+Proof. vm_compute. split; reflexivity. Qed.
+
+(* (2) the path was not a table when first loaded (mtbl_reader_init returned NULL): it stays without a
+   reader after it has been replaced by a table *)
+Example T07b_caveat_failed_load_is_kept :
+  let w0 := mkworld 1 1 [1] [(1, FNotTable)] 1000 0 in
+  let ops := [OpOpen 0; OpClose 0; OpCreate 1 (FTable 7); OpSetFile [1]; OpAdvance 5 0; OpReloadNow 0; OpOpen 0] in
+  frun (fs_init w0 0 None None) ops = [OutView []; OutNone; OutNone; OutNone; OutNone; OutNone; OutView []].
+Proof. vm_compute. reflexivity. Qed.
+
+(* (3) "most recent reload" is the most recent reload that found the (ino, mtime) of the setfile changed
+   (my_fileset.c:166, 74): with the setfile untouched, a path it names that appears later is not loaded,
+   and one that disappears stays loaded, whatever the number of reloads *)
+Example T07b_caveat_unchanged_setfile :
+  let w0 := mkworld 1 1 [1; 2] [(1, FTable 11)] 1000 0 in
+  let ops := [OpOpen 0; OpClose 0; OpCreate 2 (FTable 12); OpDelete 1; OpAdvance 5 0; OpReloadNow 0; OpOpen 0] in
+  frun (fs_init w0 0 None None) ops = [OutView [11]; OutNone; OutNone; OutNone; OutNone; OutNone; OutView [11]].
+Proof. vm_compute. reflexivity. Qed.
